@@ -108,6 +108,18 @@ func (fr *Frame) callGhosts(b *ssa.BasicBlock, st *State, name string, args []Va
 		if !strings.Contains(name, g.Callee) {
 			continue
 		}
+		if g.Nth >= 0 {
+			// only the n-th call of this callee (in the order the calls are met; meant for straight-line code)
+			if fr.callCount == nil {
+				fr.callCount = map[string]int{}
+			}
+			k := "ghost:" + g.Callee + "/" + g.Cl.Label
+			n := fr.callCount[k]
+			fr.callCount[k]++
+			if g.Nth != n {
+				continue
+			}
+		}
 		vars := map[string]Val{}
 		for kk, v := range fr.params {
 			vars[kk] = v
